@@ -362,6 +362,9 @@ int sqfs_inode_unpack_dir_index_entry(const sqfs_inode_generic_t *inode,
 		if (offset >= inode->payload_bytes_used)
 			return SQFS_ERROR_OUT_OF_BOUNDS;
 
+		if ((inode->payload_bytes_used - offset) < sizeof(ent))
+			return SQFS_ERROR_OUT_OF_BOUNDS;
+
 		if (index == 0)
 			break;
 
@@ -372,12 +375,17 @@ int sqfs_inode_unpack_dir_index_entry(const sqfs_inode_generic_t *inode,
 
 	memcpy(&ent, ptr + offset, sizeof(ent));
 
-	*out = alloc_flex(sizeof(ent), 1, ent.size + 2);
+	if ((size_t)ent.size + 1 >
+	    inode->payload_bytes_used - offset - sizeof(ent)) {
+		return SQFS_ERROR_OUT_OF_BOUNDS;
+	}
+
+	*out = alloc_flex(sizeof(ent), 1, (size_t)ent.size + 2);
 	if (*out == NULL)
 		return SQFS_ERROR_ALLOC;
 
 	memcpy(*out, &ent, sizeof(ent));
-	memcpy((*out)->name, ptr + offset + sizeof(ent), ent.size + 1);
+	memcpy((*out)->name, ptr + offset + sizeof(ent), (size_t)ent.size + 1);
 	return 0;
 }
 
